@@ -13,8 +13,8 @@ RULE = ("One case = one small real Hermitian model (2..6 basis sets, prod(d) <= 
         "sector, a generic full-rank TTNS of the sector (bond dimensions = largest ranks the sector allows, verified "
         "edge by edge on the dense vector) and two of the four registered schemes (tdvp_vmf, prop_and_compress_tdrk4, "
         "tdvp_ps, tdvp_ps2; rotating) each in real AND imaginary time. Oracles: A one step against the dense propagator "
-        "(RK4 P&C: e(h)/e(h/2) >= 0.7*32 and e(h) <= 10 x^5; VMF, PS2 and PS on complete bonds: exact up to the local "
-        "solver; PS on sector-limited bonds: second order, ratio >= 0.7*8), sector conservation and bond bookkeeping of "
+        "(RK4 P&C: e(h)/e(h/2) >= 0.7*32 and e(h) <= 10 x^5; VMF, and PS / PS2 on complete bonds: exact up to the local "
+        "solver; PS on sector-limited bonds: second order, ratio >= 0.7*8; PS2 on sector-limited bonds: e(h) <= 10 x^3), sector conservation and bond bookkeeping of "
         "every result, the default normalised call, plus one rotating extra: D t vs t/2+t/2, E norm and energy of tdvp_ps "
         "at a truncated bond dimension over 5 steps, F bond limits of the growing schemes, linear tree vs chain "
         "implementation of the same scheme, states with auxiliary degrees of freedom (H on the physical ones), 2..4-call "
@@ -26,7 +26,7 @@ ASSUMPTIONS = [
     "real Hermitian operators only (TTNO asserts 'complex operator not supported yet'); physical basis sets with nbas >= 2 (todense squeezes size-1 axes); quantum-number labels >= 0 (TTNS.random, the only sector-aware random constructor, skips blocks by comparing labels with qntot)",
     "bond dimensions sufficient to hold the result: TTNS.random with limit prod(d), canonicalise + lossless compress; the Schmidt ranks of the dense vector at every edge equal the bond dimensions (checked per case), compress_config fixed with limit 1e6, normalize=False for the order/exactness oracles, fresh EvolveConfig and CompressConfig for every call",
     "calibration on the unchanged tree (throw-away script, 30 + 320 models over all 10 tree kinds, e(h), e(h/2), ratio per scheme, real and imaginary time): RK4 P&C ratio 31.94..32.00 in real time and 27.2..35.7 in imaginary time at ||H||tau = 0.5 (the x^6 term is visible there; the check uses tau <= 0.4) - acceptance 0.7*32 = 22.4, e(h) <= 10 x^5; tdvp_vmf with ivp_rtol 1e-8 / ivp_atol 1e-10 at ||H||h <= 0.3: error 2e-12..1.5e-9 - bound 1e-7; tdvp_ps on complete bonds and tdvp_ps2 from a full-rank state at ||H||h = 0.3: error <= 6e-12 (Krylov) - bound 1e-9",
-    "one-site projector splitting is exact only when at every edge one side's basis is complete in the sector (Schmidt rank == number of sub-tree states, or of remaining states, that the sector allows; without quantum numbers: rank == min(dim sub-tree, dim rest)): 27/27 such calibration states gave errors <= 6e-12; otherwise (12 calibration states) it is an order-limited splitting scheme, declared second order (symmetric forward + backward sweep); the ratio is judged at ||H||h in [0.04, 0.06]: 200 searched states gave 7.62..8.6 (one 14.3) with a symmetric sweep and 3.93..4.11 where the implementation is only first order - acceptance 0.7*8 = 5.6",
+    "one-site projector splitting is exact only when at every edge one side's basis is complete in the sector (Schmidt rank == number of sub-tree states, or of remaining states, that the sector allows; without quantum numbers: rank == min(dim sub-tree, dim rest)): 27/27 such calibration states gave errors <= 6e-12; otherwise (12 calibration states) it is an order-limited splitting scheme, declared second order (symmetric forward + backward sweep); the ratio is judged at ||H||h in [0.04, 0.06]: 200 searched states gave 7.62..8.6 (one 14.3) with a symmetric sweep and 3.93..4.11 where the implementation is only first order - acceptance 0.7*8 = 5.6; tdvp_ps2 was exact on all calibration states but is not in general when no side of an edge is complete (e.g. virtual root with two children whose common bipartition saturates different charge blocks on different sides: 6e-4 at ||H||h = 0.3, erratic ratio 2.6..4.6 because update_2site pads its bond bases with random null-space vectors): there only e(h) <= 10 x^3 is demanded",
     "conservation (E): |norm drift| <= 1e-6 k, |energy drift| <= 1e-6 k ||H|| after k <= 5 real-time steps (||H||h in {0.1, 0.5, 1}) of tdvp_ps at a truncated bond dimension (the Krylov kernel stops at successive-iterate agreement rtol 1e-5 / atol 1e-8; observed drift <= 5e-15)",
     "splitting (D): error of two half steps <= 2.5 e^{x} e(h/2) + local bound (imaginary time: exp(-tau H) amplifies relative errors by at most e^{x})",
     "linear tree vs chain: states related by renormalizer.tn.tree.from_mps; the tree result within its bound of the dense reference and, when the chain result is within its own bound, within the sum of the bounds of each other; RK4 P&C within 1e-9 (both are the same Taylor polynomial; observed 2e-15)",
@@ -123,17 +123,24 @@ def step_size(ctx, sc, order, imag):
 
 
 def ps_order(complete):
+    """Declared behaviour of the projector-splitting schemes: exact when every edge has one complete side, otherwise
+    a second-order splitting (the projectors of consecutive sub-steps no longer cancel pairwise)."""
     return None if complete else 2
+
+
+def order_of(sc, complete):
+    return ps_order(complete) if sc in ("tdvp_ps", "tdvp_ps2") else te.ORDER[sc]
 
 
 def oracle_A(ctx, tm, sc, s0, psi, qntot, imag, complete, state_cls="full"):
     """One step against the dense propagator: order or exactness.  Returns the relative error."""
     mode = mode_of(imag)
     ctx.cls(f"scheme:{sc}|{mode}")
-    order = te.ORDER[sc]
+    order = order_of(sc, complete)
     if sc == "tdvp_ps":
-        order = ps_order(complete)
         ctx.cls("ps:complete-bonds" if complete else "ps:incomplete-bonds")
+    if sc == "tdvp_ps2" and not complete:
+        ctx.cls("ps2:incomplete-bonds")
     x = step_size(ctx, sc, order, imag)
     tau = -1j * x if imag else x
     out, handed = te.run_step(ctx, tm, sc, s0, tau)
@@ -161,6 +168,10 @@ def oracle_A(ctx, tm, sc, s0, psi, qntot, imag, complete, state_cls="full"):
     ctx.cls("A:order")
     p = order
     ctx.check(e1 <= 10 * x ** (p + 1) + 1e-9, f"A|{sc}|{mode}|error-above-order-bound", e=e1, x=x, p=p)
+    if sc == "tdvp_ps2":
+        # the two-site update pads its bond bases with random null-space vectors (svd_qn full_matrices=True, numpy global
+        # RNG): the error constant is not a smooth function of h, so only the order bound above is judged
+        return e1, x
     out2, handed2 = te.run_step(ctx, tm, sc, s0, tau / 2)
     ref2 = te.exact(tm, psi, tau / 2)
     common_checks(ctx, tm, sc, imag, s0, handed2, out2, qntot, float(np.linalg.norm(ref2)))
@@ -208,7 +219,8 @@ def oracle_normalised(ctx, tm, sc, s0, psi, qntot, imag, complete):
     want = ref / np.linalg.norm(ref) * (1.0 if imag else abs(c0))
     got = te.dense_of(out, tm.order)
     # P&C at x = 0.2: (0.2)^5/120 ~ 3e-6; one-site splitting on sector-limited bonds: second order
-    tol = {"tdvp_vmf": 1e-6, "tdvp_ps2": 1e-6, "prop_and_compress_tdrk4": 1e-4, "tdvp_ps": 1e-6 if complete else 10 * x ** 3}[sc]
+    split_tol = 1e-6 if complete else 10 * x ** 3
+    tol = {"tdvp_vmf": 1e-6, "tdvp_ps2": split_tol, "prop_and_compress_tdrk4": 1e-4, "tdvp_ps": split_tol}[sc]
     ctx.count("oracle", 3)
     d = float(np.linalg.norm(got - want)) / max(float(np.linalg.norm(want)), 1e-300)
     ctx.check(d <= tol, f"normalised|{sc}|{mode}|result-differs", err=d, tol=tol)
@@ -228,7 +240,7 @@ def oracle_D(ctx, tm, sc, s0, psi, qntot, imag, complete):
     """psi(t) vs psi(t/2)(t/2)."""
     ctx.cls("D:splitting")
     mode = mode_of(imag)
-    order = te.ORDER[sc] if sc != "tdvp_ps" else ps_order(complete)
+    order = order_of(sc, complete)
     x = step_size(ctx, sc, order, imag) * 0.8
     tau = -1j * x if imag else x
     one, _ = te.run_step(ctx, tm, sc, s0, tau)
@@ -339,7 +351,7 @@ def oracle_history(ctx, tm, full, psi, qntot, complete):
         if sc == "tdvp_ps2" and not allow_ps2(ctx, tm):
             sc = "tdvp_ps"
         imag = bool(rng.random() < 0.4)
-        order = te.ORDER[sc] if sc != "tdvp_ps" else ps_order(complete)
+        order = order_of(sc, complete)
         x = step_size(ctx, sc, order, imag) * float(rng.uniform(0.4, 1.0))
         tau = -1j * x if imag else x
         cur, _ = te.run_step(ctx, tm, sc, cur, tau)
@@ -419,6 +431,7 @@ def oracle_chain(ctx):
     tm.em, tm.tree, tm.kind, tm.ttno = em, basis_tree, "linear", ttno
     tm.phys = te.physical(em.gm.basis)
     tm.order, tm.dims, tm.H, tm.aux = list(tm.phys), [b.nbas for b in tm.phys], np.asarray(em.H), None
+    tm.dim = int(np.prod(tm.dims))
     ctx.count("oracle")
     if not ctx.close(te.dense_of(ttns, tm.order), psi, 1e-12, "linear-vs-chain|from_mps|vector-differs", scale=1.0):
         return
@@ -433,7 +446,7 @@ def oracle_chain(ctx):
         imag = bool(rng.random() < 0.5)
         mode = mode_of(imag)
         ctx.cls(f"linear-vs-chain:{sc}|{mode}")
-        order = te.ORDER[sc] if sc != "tdvp_ps" else ps_order(complete)
+        order = order_of(sc, complete)
         x = step_size(ctx, sc, order, imag)
         tau = -1j * x if imag else x
         ref = te.exact(tm, psi, tau)
@@ -499,7 +512,7 @@ def oracle_aux(ctx):
     s.scale(1.0 / nrm, inplace=True)
     Psi = Psi / nrm
     ttno_aux = ctx.lib(TTNO, atree, list(em.terms), what="TTNO(aux tree)")
-    tm.aux = True
+    tm.aux = list(order)
     # edges complete?  ranks of the doubled vector against the sector of the P labels (Q labels are zero)
     atm = te.TreeModel()
     atm.phys, atm.dims = order, [b.nbas for b in order]
@@ -525,7 +538,7 @@ def oracle_aux(ctx):
         mode = mode_of(imag)
         on_p_tree = bool(rng.random() < 0.5)
         ctx.cls(f"aux-space:{sc}|{mode}", "aux-space:ttno-on-physical-tree" if on_p_tree else "aux-space:ttno-on-doubled-tree")
-        order_p = te.ORDER[sc] if sc != "tdvp_ps" else ps_order(complete)
+        order_p = order_of(sc, complete)
         x = step_size(ctx, sc, order_p, imag)
         tau = -1j * x if imag else x
         U = te.exact(tm, np.eye(tm.dim), tau)
